@@ -172,7 +172,7 @@ CLAIMED["C07"] = (
     "compile-fail witnesses (R-OWN), must-consume analysis (R-LINEAR), who-may-drop-an-arena (R-ARENA), commit-before-check on atomic "
     "cursors (R-COMMIT), relink-inside-retry-loop on CAS pushes (R-ABA.relink), capacity/request consistency of recycled mmap regions "
     "(R-VIEW), refusal test on the carve cursor (R-GUARD.cursor), upper-bound comparison in pointer validators (R-GUARD.region), "
-    "end-derived-from-start of bump ranges (R-RANGE.dep), check-then-act across two critical sections (R-LOCKSPLIT)",
+    "end-derived-from-start of bump ranges (R-RANGE.dep), check-then-act across two critical sections (R-LOCKSPLIT), no access through a block pointer after its release call (R-RELEASE)",
     "static rules over MIR and borrow-checker witnesses: a capacity check cannot be wrapped by the request size; a block is carved at "
     "the size of the class it is filed under; RAII guards are tied to their pool; a freed chunk is always handed back; a live arena is "
     "never freed by an allocation path",
